@@ -24,6 +24,8 @@ from vf.ref import ldap as R
 
 STRUCT = bytes.fromhex("000102040 50a303142606378 7f808184a0ff".replace(" ", ""))
 assert len(STRUCT) == 18
+STRUCT12 = bytes.fromhex("000102043042606380 81a0ff".replace(" ", ""))  # quick tier, length 5
+assert len(STRUCT12) == 12
 
 C = L.LDAPResultCode
 RES = L.LDAPResult(C.REFERRAL, "dn", "msg", ["u1"])
@@ -211,7 +213,10 @@ def _work1(job: t.Tuple[t.Any, ...]) -> evid.Local:
             _run_input(loc, data, fam, ("server", "client"), ("fresh", "binding", "open-outstanding") if ln <= 2 else ("fresh",), "bytewise", ln <= 2, {"fam": fam})
     elif fam == "struct":
         ln, first, states = job[1], job[2], job[3]
-        for rest in itertools.product(STRUCT, repeat=ln - 1):
+        alpha = STRUCT if (ln <= 4 or _X["thorough"]) else STRUCT12
+        if first not in alpha:
+            return loc
+        for rest in itertools.product(alpha, repeat=ln - 1):
             data = bytes((first,) + rest)
             _run_input(loc, data, fam, ("server", "client") if ln <= 4 else ("server",), states, "bytewise" if ln <= 4 or _X["thorough"] else "whole", False, {"fam": fam})
     elif fam == "replace":
@@ -243,6 +248,30 @@ def _work1(job: t.Tuple[t.Any, ...]) -> evid.Local:
                 if (i2, l2) <= (i1, l1):
                     continue
                 _run_input(loc, d2, fam, ("server",) if _X["roles_of"][bi] == "server" else ("client",), ("open-outstanding",), "whole", False, {"fam": fam, "base": bi, "mutations": [[i1, l1], [i2, l2]]})
+    elif fam == "bigint":
+        # every INTEGER / ENUMERATED of every base message replaced by contents of 1 800 and 4 000 octets
+        # (4 300+ / 9 600+ decimal digits: beyond what the interpreter converts to text by default)
+        bi = job[1]
+        b = _X["bases"][bi]
+        tree, _end = ber.parse_one(b, 0, strict=False)
+        nodes = list(tree.walk())
+        for idx, n in enumerate(nodes):
+            if n.cls == ber.UNIVERSAL and n.num in (2, 10) and n.children is None:
+                for content in (b"\x7f" + b"\xff" * 1799, b"\x80" + b"\x00" * 1799, b"\x01" + b"\x23" * 3999):
+                    tr = tree.copy()
+                    list(tr.walk())[idx].content = content
+                    _run_input(loc, ber.encode(tr), fam, ("server", "client"), ("fresh", "binding", "open-outstanding"), "whole", True, {"fam": fam, "base": bi, "node": idx, "octets": len(content)})
+    elif fam == "states":
+        # every reachable state of the single-session search (vf/checks/sess.py) x every delivery of its alphabet:
+        # receive must return or raise ProtocolError from EVERY state, not only from the three representatives
+        role, kk = job[1], job[2]
+        res = SS.explore(role, kk, _X["known_all"], 0, parallel=False)
+        loc.add("states", res.states)
+        loc.add("transitions", res.transitions)
+        for (p, k), e in res.viol.items():
+            if p == "C05":
+                loc.violation(k, e["what"], {"role": role, "K": kk, "history": [list(x) for x in e["history"]]}, e["count"])
+        loc.distinct.add(("states", role, res.states))
     elif fam == "nest":
         tagb, lo, hi, stepn, form = job[1], job[2], job[3], job[4], job[5]
         for depth in range(lo, hi, stepn):
@@ -280,16 +309,20 @@ def run(ctx: evid.Ctx) -> None:
         for lo, hi in par.split(len(b), max(1, len(b) // 8)):
             jobs.append(("replace", bi, lo, hi))
         jobs.append(("truncate", bi))
+        jobs.append(("bigint", bi))
         jobs.append(("nodes", bi, "splits" if (thorough or len(b) <= 48) else "bytewise"))
         if thorough:
             jobs.append(("node-pairs", bi))
+    _X["known_all"] = set(ctx.known)
+    jobs += [("states", "client", 3 if thorough else 2), ("states", "server", 2 if thorough else 1)]
     nstep = 1 if thorough else 25
     for tagb in (0xA2, 0xA0, 0xA1):
         for form in ("min", "84"):
             dense = 1 if thorough or (tagb == 0xA2 and form == "min") else 7
             jobs += [("nest", tagb, 1 + lo, 1 + hi, dense, form) for lo, hi in par.split(700, 14)]
             jobs += [("nest", tagb, 701 + lo, 701 + hi, nstep, form) for lo, hi in par.split(2300, 16)]
-    for loc in par.pmap(_work, jobs, ctx.seed):
+    jobs.sort(key=lambda j: 0 if j[0] == "states" else 1)
+    for loc in par.pmap(_work, jobs, 0):
         evid.absorb(ctx, loc)
     ctx.counters["evaluations"] = ctx.counters.get("transitions", 0)
     ctx.counters["traces_validated_against_impl"] = ctx.counters.get("transitions", 0)
@@ -305,6 +338,7 @@ def run(ctx: evid.Ctx) -> None:
     ctx.bounds = {
         "all_byte_strings_up_to": 3 if thorough else 2,
         "structural_alphabet_strings_up_to": smax,
+        "structural_alphabet_note": "length 5 at quick uses the 12-byte subset " + STRUCT12.hex(),
         "structural_alphabet": STRUCT.hex(),
         "base_messages": len(bases),
         "node_mutation_menu": bermut.MENU,
@@ -312,6 +346,8 @@ def run(ctx: evid.Ctx) -> None:
         "nesting_depths": "not/minimal lengths: every depth 1..700 then every %d up to 3000; {and, or} and 0x84 lengths: every %d-th depth up to 700, then every %d" % (nstep, 1 if thorough else 7, nstep),
         "prior_states": {r: [s for s, _ in STATES[r]] for r in STATES},
         "chunkings": "whole, byte-at-a-time; every 2-split for node mutations of messages <= 48 bytes (all at thorough)",
+        "huge_integers": "every INTEGER/ENUMERATED node of every base message with 1 800 / 4 000 content octets",
+        "all_reachable_states": "the single-session search of vf/checks/sess.py (client K=2, server K=1; thorough 3 / 2): every delivery from every reachable state",
     }
     ctx.assumptions = [
         "prior states are 3 representatives per role (fresh, BINDING, OPENED with outstanding search+extended); decoding is "
@@ -321,6 +357,8 @@ def run(ctx: evid.Ctx) -> None:
 
 
 def replay(case: t.Dict[str, t.Any], key: t.Optional[str] = None) -> t.Tuple[bool, str]:
+    if "history" in case:
+        return SS.replay_history(case["role"], case["history"], case["K"], "C05", key)
     if case.get("chunks"):
         chunks = [bytes.fromhex(c) for c in case["chunks"]]
     elif case.get("data"):
